@@ -50,6 +50,14 @@ add("C16", "exploration",
     "Trusted: CPython codecs and json, nlrun serialiser, Hypothesis. str_radix(0,b) accepts \"\" or \"0\".",
     "DESIGN.md §3 C16")
 
+add("C09", "exploration",
+    "stateful model-based property testing (Hypothesis histories vs a hash-free association-list model over == classes)",
+    "Histories of every listed dictionary operation over a pool of ~50 keys rich in distinct-but-equal representatives (int/float/"
+    "rational/complex, big/small, nested in lists/vectors/dicts, NaN, -0.0); after each operation len, membership and lookup of every "
+    "pool key and the contents are compared; unique/frequencies/count_distinct/group_all/memoize/set on key lists.",
+    "Trusted: the model's exact equality (Fraction-based), nlrun serialiser, Hypothesis. Key representative and iteration order not compared.",
+    "DESIGN.md §3 C09")
+
 NOT_APPLICABLE = {
 }
 
